@@ -295,8 +295,11 @@ class Engine:
 
     # ---------- helpers
     def feasible(self, pc):
+        n = getattr(self, '_n_assumed', 0)
+        if n < len(self.ex.assumptions):          # range facts only ever grow: assert them once, at the base level
+            for a in self.ex.assumptions[n:]: self.solver.add(a)
+            self._n_assumed = len(self.ex.assumptions)
         self.solver.push()
-        for a in self.ex.assumptions: self.solver.add(a)
         for c in pc: self.solver.add(c)
         r = self.solver.check()
         self.solver.pop()
@@ -518,6 +521,18 @@ class Engine:
             for cand in (name, name.split('::', 1)[-1], '::'.join(name.split('::')[-2:]), name.split('::')[-1]):
                 if cand in mir.consts:
                     return self.eval_const(mir.consts[cand])
+        # associated const: path::Type::NAME  defined as  module::<impl at loc>::NAME
+        segs = name.split('::')
+        if len(segs) >= 2:
+            last, owner = segs[-1], segs[-2]
+            for mir in self.mirs:
+                if not hasattr(mir, 'assoc_consts'):
+                    mir.assoc_consts = {}
+                    for cn, cf in mir.consts.items():
+                        im = re.search(r'<impl at ([^>]*)>::(\w+)$', cn)
+                        if im: mir.assoc_consts.setdefault((impl_info(im.group(1))[1], im.group(2)), cf)
+                cf = mir.assoc_consts.get((owner, last))
+                if cf is not None: return self.eval_const(cf)
         return Opaque(tyhint or '?', 'const ' + s)
 
     def eval_const(self, f):
@@ -889,6 +904,50 @@ class Engine:
             if self.feasible(st.pc + [z3.Not(okc)]): st.events.append(('may_panic', 'unwrap on Err', z3.And(st.pc + [z3.Not(okc)])))
             st.pc.append(okc)
             return o.payload[0][0]
+        mm = re.match(r'^(?:std::result::)?(Result|Option)::<(.*)>::(map|and_then)::<(.*)>$', c)
+        if mm and isinstance(args[0], EnumV):
+            cf = self.closure_fn(mm.group(4))
+            src = args[0]; isres = mm.group(1) == 'Result'
+            okv = 0 if isres else 1
+            if cf is not None and okv in src.payload and 0 in src.payload[okv]:
+                has = disc_eq(src, okv)
+                if z3.is_false(z3.simplify(has)):
+                    return src if isres else EnumV('Option', 0, {})
+                sub = self.call_pure(st, cf, [args[1], src.payload[okv][0]])
+                if len(sub) == 1 and not sub[0][0]:
+                    rv = sub[0][1]
+                    if mm.group(3) == 'map':
+                        pay = {okv: {0: rv}}
+                        if isres: pay[1] = dict(src.payload.get(1, {0: Opaque('E', 'err')}))
+                        return EnumV(mm.group(1), src.disc, pay)
+                    if isinstance(rv, EnumV):       # and_then: closure returns Option/Result itself
+                        if isinstance(src.disc, int):
+                            return rv
+                        d = z3.If(has, zint_(rv.disc), z3.IntVal(1 - okv))
+                        pay = dict(rv.payload)
+                        if isres and 1 not in pay: pay[1] = {0: Opaque('E', 'err')}
+                        return EnumV(mm.group(1), z3.simplify(d), pay)
+        mm = re.match(r'^(?:std::result::)?Result::<(.*)>::unwrap_or$', c)
+        if mm and isinstance(args[0], EnumV):
+            o = args[0]
+            if isinstance(o.disc, int):
+                return o.payload[0][0] if o.disc == 0 else args[1]
+            sv = o.payload[0][0]
+            if isinstance(sv, BoolV): return BoolV(z3.If(o.disc == 0, sv.e, args[1].e))
+            if isinstance(sv, IntV): return IntV(z3.If(o.disc == 0, sv.e, args[1].e), sv.ty)
+        mm = re.match(r'^<\[(.*); (\d+)\] as IntoIterator>::into_iter$', c)
+        if mm and isinstance(args[0], StructV):
+            return StructV('ArrayIntoIter', self.ex.fresh_name('aiter'), {'__arr': Cell(args[0]), '__idx': 0, '__n': int(mm.group(2)), '__elemty': mm.group(1)}, lazy=False)
+        if re.match(r'^<std::array::IntoIter<.*> as Iterator>::next$', c):
+            it = self.deref_val(args[0])
+            if isinstance(it, StructV) and '__arr' in it.fields:
+                i = it.fields['__idx']; n = it.fields['__n']
+                if i >= n: return EnumV('Option', 0, {})
+                it.fields['__idx'] = i + 1
+                arr = it.fields['__arr'].val
+                if i not in arr.fields:
+                    arr.fields[i] = self.ex.fresh(it.fields['__elemty'], f'{arr.name}[{i}]')
+                return EnumV('Option', 1, {1: {0: arr.fields[i]}})
         # ---- iterator models over fixed arrays / short lists, closures executed from their own MIR
         mm = re.match(r'^core::slice::<impl \[.*\]>::(iter|iter_mut)$', c)
         if mm:
@@ -1145,6 +1204,7 @@ class Engine:
                         merged = self.merge_states([x.clone() for x in parked], T['L']); self.stats['merges'] += 1
                     except Unmergeable as e:
                         self.stats['merge_fail'] += 1
+                        rs = self.stats.setdefault('merge_fail_reasons', {}); rs[str(e)[:60]] = rs.get(str(e)[:60], 0) + 1
                 newstates = [merged] if merged is not None else parked
                 for ns in newstates: ns.tickets = [x for x in ns.tickets if x is not T]
                 delta = len(newstates) - len(parked)
@@ -1229,7 +1289,7 @@ class Engine:
 
     def translate(self, x):
         """value taken over from the other state: redirect references to objects that have a counterpart in cur"""
-        if x is None or isinstance(x, (IntV, BoolV, Opaque, int, str, tuple)): return x
+        if x is None or isinstance(x, (IntV, BoolV, Opaque, int, str, tuple, Poison)): return x
         if id(x) in self._pair: return self._pair[id(x)]
         if id(x) in self._tr_seen: return self._tr_seen[id(x)]
         self._tr_seen[id(x)] = x
@@ -1314,8 +1374,12 @@ class Engine:
             for k in set(a.fields) | set(b.fields):
                 va = a.fields.get(k); vb = b.fields.get(k)
                 if isinstance(va, (int, str)) or isinstance(vb, (int, str)):
-                    if va != vb: raise Unmergeable('meta field ' + str(k))
+                    if va != vb:
+                        if k == '__idx': a.fields[k] = Poison('iterator position differs between merged paths'); continue
+                        raise Unmergeable('meta field ' + str(k))
                     continue
+                if isinstance(va, Poison) or isinstance(vb, Poison):
+                    a.fields[k] = va if isinstance(va, Poison) else vb; continue
                 if va is None or vb is None:
                     other = vb if va is None else va
                     if isinstance(other, Cell) or not isinstance(k, int):
@@ -1500,6 +1564,12 @@ class Engine:
 class Unmergeable(Exception):
     pass
 
+class Poison:
+    """placeholder for engine-internal state that became ambiguous in a merge; any use raises (never silently wrong)"""
+    def __init__(self, why): self.why = why
+    def _boom(self, *a, **k): raise Exception('use of poisoned engine state: ' + self.why)
+    __ge__ = __gt__ = __le__ = __lt__ = __add__ = __radd__ = __index__ = __int__ = __hash__ = _boom
+
 class ForkResult:
     """returned by a library model that needs to split the path: alts = [(cond, fn(state, args) -> value)]"""
     def __init__(self, alts): self.alts = alts
@@ -1545,6 +1615,8 @@ def compute_ipdom(fn):
     fn._ipdom = ip
     return ip
 
+def zint_(x):
+    return z3.IntVal(x) if isinstance(x, int) else x
 def disc_eq(v, k):
     d = v.disc
     return z3.BoolVal(d == k) if isinstance(d, int) else (d == k)
